@@ -40,7 +40,7 @@ def run(ctx):
                                                                            and case.get("recursive") and case.get("validate_example", "")[:4] in ("E204", "E205"))
     ctx.classifiers["example_key_not_escaped"] = lambda case: isinstance(case, dict) and case.get("cls") == "keyescape"
     cases = []     # (label, harness case dict, expected example text or None, class tag)
-    n = 300 if quick else 12000
+    n = 1200 if quick else 24000
     for _ in range(n):
         w = J.rand_rule_schema(rng, rng.randint(0, 4))
         cases.append(("plain", {"schema": J.print_schema(w, rng)}, J.plain_json(w), None))
